@@ -219,8 +219,9 @@ impl<Octs: AsRef<[u8]> + ?Sized> Txt<Octs> {
 
     /// Returns the content if it consists of a single character string.
     pub fn as_flat_slice(&self) -> Option<&[u8]> {
-        if usize::from(self.0.as_ref()[0]) == self.0.as_ref().len() - 1 {
-            Some(&self.0.as_ref()[1..])
+        let (len, text) = self.0.as_ref().split_first()?;
+        if usize::from(*len) == text.len() {
+            Some(text)
         } else {
             None
         }
